@@ -24,8 +24,8 @@ CLAIMS['C35'] = dict(engine='pyvc (E1) + rtc (E3)', category='proof',
          'as the reference sampler is proved to in C33. MCmoves (batch == Metropolis move by move), copy and parameter extraction are run-time relational contracts (B) on real numba objects.',
     note='Assumes numba runs the class body with Python semantics (decorator dropped), table invariants from the constructor (run-time checked), reals for energies.')
 
-CLAIMS['C18'] = dict(engine='rtc (E3) + pyframe ownership typing (E2b)', category='exploration',
-    technique='ownership contract of Crystal.__init__ / incell on the extracted AST (the crystal shares no array with its constructor arguments, nested lists deep-copied: for every caller history); run-time contract on Crystal construction (group axioms, isometry, atom/spin map) over an enumerated catalogue: bounded stand-in for the contract; GroupOp algebra proved under C23',
+CLAIMS['C18'] = dict(engine='pyvc (E1: AST -> VCs -> z3) + pyframe ownership typing (E2b) + rtc (E3)', category='exploration',
+    technique='contract of maptranslation (the search behind every symmetry operation: a returned atom mapping has one entry per atom and every entry matches under the returned translation, for every meaning of the floating-point tests) discharged by z3 from the extracted source with invariants for the four nested loops; ownership contract of Crystal.__init__ / incell on the extracted AST (the crystal shares no array with its constructor arguments, nested lists deep-copied: for every caller history); run-time contract on Crystal construction (group axioms, isometry, atom/spin map) over an enumerated catalogue: bounded stand-in for the contract; GroupOp algebra proved under C23',
     text='Bounded: for every catalogue crystal (named lattices, low-symmetry, 2D, rotated settings, scalar/vector/complex spins, glide cells with several species, '
          'NOSYM, strained) each reported operation satisfies the isometry / lattice / atom-map / spin contract and the set is a group. Not a proof.',
     note='Tolerances fixed in the contract; the catalogue is the bound.')
@@ -35,8 +35,8 @@ CLAIMS['C20'] = dict(engine='rtc (E3) + symx path enumeration (E4) + pyframe own
     text='Bounded: every site of every catalogue crystal and every subgroup of Oh, D6h (3D, two orientations) and D4, D6, D2 (2D, rotated) gets orthonormal, '
          'invariant vector and symmetric-tensor bases of exactly the dimension the character formula gives; Wyckoff sets equal brute-force orbits; adding a full orbit keeps |G|.',
     note='Character formulas trusted as definition; catalogue and listed orientations are the bound.')
-CLAIMS['C21'] = dict(engine='rtc (E3)', category='exploration',
-    technique='run-time postcondition of Crystal.jumpnetwork against an independent brute-force window enumeration (bounded stand-in)',
+CLAIMS['C21'] = dict(engine='pyvc (E1: AST -> VCs -> z3) + rtc (E3)', category='exploration',
+    technique='contract of maptranslation (the atom maps of the operations under which the jump classes are closed) discharged by z3 from the extracted source; run-time postcondition of Crystal.jumpnetwork against an independent brute-force window enumeration (bounded stand-in)',
     text='Bounded: on every catalogue crystal/species and the first shells, with scalar and per-species obstruction distances, the network equals the brute-force jump set, '
          'each jump once, classes are single orbits closed under the space group and reversal, and the lattice form encodes the same jumps.',
     note='Cutoffs/obstruction distances drawn midway between distinct distances; default distance 0 excludes paths through a site (code semantics).')
